@@ -50,6 +50,9 @@ type wcall struct {
 	useString bool
 	beh       wbeh
 	consume   bool // a consumer is blocked in receive when this write happens
+	// consumeDuring: the consumer starts its receive while the wrapped writer is busy with this call - after whatever the
+	// ProgressWriter does before it calls the wrapped writer, before what it does afterwards
+	consumeDuring bool
 }
 
 type script struct {
@@ -86,6 +89,9 @@ func (s script) render() string {
 		if c.consume {
 			p += " [consumer receiving]"
 		}
+		if c.consumeDuring {
+			p += " [consumer arrives during the call]"
+		}
 		parts = append(parts, p)
 	}
 	return fmt.Sprintf("stacked=%v stringWriter=%v greedy=%v late=%d absentUntilClose=%v asksSizeFirst=%v lateBy=%s: %s", s.stacked, s.stringable, s.greedy, s.late, s.absent, s.asksSize, s.lateBy, strings.Join(parts, "; "))
@@ -94,13 +100,18 @@ func (s script) render() string {
 // wrapped writers ---------------------------------------------------------
 
 type plainWriter struct {
-	behs  []wbeh
-	i     int
-	got   bytes.Buffer
-	calls []string
+	behs   []wbeh
+	i      int
+	got    bytes.Buffer
+	calls  []string
+	during func() // run once, inside the next call
 }
 
 func (w *plainWriter) next(n int) (int, error) {
+	if f := w.during; f != nil {
+		w.during = nil
+		f()
+	}
 	b := wbeh{}
 	if w.i < len(w.behs) {
 		b = w.behs[w.i]
@@ -142,6 +153,7 @@ func (w *stringWriter) WriteString(s string) (int, error) {
 
 type outcome struct {
 	missed      int
+	during      int
 	shortOrFail int
 	received    int
 }
@@ -217,6 +229,14 @@ func runScript(s script) (string, outcome) {
 			parked, receiving = true, true
 		}
 		synctest.Wait() // the consumer (if any) is now durably blocked in its receive
+		if !s.greedy && !s.absent && c.consumeDuring && (s.late < 0 || i >= s.late) && !receiving {
+			pw0.during = func() {
+				token <- struct{}{}
+				synctest.Wait() // ... and now it is, in the middle of the call
+			}
+			parked, receiving = true, true
+			oc.during++
+		}
 		data := bytes.Repeat([]byte{byte('a' + i%26)}, c.size)
 		before := len(received)
 		var n int
@@ -446,6 +466,9 @@ func genScript(t *rapid.T) script {
 		if every > 0 {
 			c.consume = i%every == 0
 		}
+		if !c.consume && rapid.IntRange(0, 3).Draw(t, "consumerArrivesDuringTheCall") == 0 {
+			c.consumeDuring = true
+		}
 		if rapid.IntRange(0, 9).Draw(t, "flip") == 0 {
 			c.consume = !c.consume
 		}
@@ -497,6 +520,9 @@ func TestScripts(t *testing.T) {
 			ev.Label("consumer:late")
 		} else {
 			ev.Label("consumer:per-call")
+		}
+		if oc.during > 0 {
+			ev.Label("consumer_arrives_while_the_wrapped_writer_is_busy")
 		}
 		if oc.shortOrFail > 0 {
 			ev.Label("short_or_failing_write")
